@@ -127,6 +127,16 @@ partial def go (enc : String) (steps res : List String) (k : Nat) (pool : List (
     | "union" =>
       let A ← ent 1; let B ← ent 2; let D ← newDump
       if !(← getE (isUnionM D A B FUEL) "fuel") then f := f ++ [s!"violation step {k} union-language {showTA D}"]
+      -- the result is the union of the images of the operands under the two reported maps (`absBU_union`, `absTD_union`,
+      -- `unionModel_lang`): states the maps do not mention keep their numbers (shared-table branch: both maps empty)
+      match (kv res s!"ml{k}") >>= parseMap?, (kv res s!"mr{k}") >>= parseMap? with
+      | some ml, some mr =>
+        let fl := fun q => (ml.lookup q).getD q
+        let fr := fun q => (mr.lookup q).getD q
+        let M : TA := ⟨(reindex fl A).rules ++ (reindex fr B).rules, (reindex fl A).final ++ (reindex fr B).final⟩
+        if f.isEmpty && !(taEq ⟨dedupRulesB M.rules, M.final⟩ ⟨dedupRulesB D.rules, D.final⟩) then
+          f := f ++ [s!"mismatch step {k} union is not the union of the images under the reported maps: model {showTA M} implementation {showTA D}"]
+      | _, _ => pure ()
       pool' := pool ++ [some D]; touched := some newIx
     | "uniondisj" =>
       let A ← ent 1; let B ← ent 2; let D ← newDump
